@@ -27,7 +27,8 @@ EXTENDS Integers, Sequences, FiniteSets, TLC, Json, RemotePickleProps
 CONSTANTS Scns, Algo, SeedCopyreg,
           SharedCtx,  \* the load context is one object for the whole process instead of a threading.local (FALSE = as written)
           CtxCopy,    \* context(extra_kwargs) is a (shallow) copy of the caller's dictionary (TRUE = as written)
-          KwOnlyOK,   \* remote_reduce accepts __getnewargs_ex__ returning keyword arguments only (FALSE = as written: RuntimeError)
+          KwOnlyOK,   \* remote_reduce accepts __getnewargs_ex__ returning keyword arguments only (TRUE = the code as written since
+                      \* repo commit 35e075b; FALSE = before it: RuntimeError('Internal bad call'), the variant TLC must reject)
           InitGuard   \* context.__init__ refuses to start when the thread-local still has a stack (FALSE = the code as written)
 
 VARIABLES scn,                        \* the scenario (never changes)
@@ -188,7 +189,8 @@ ClaimOf(i) == IF i = 1 THEN [o |-> 0, k |-> ""]
               ELSE IF \E c \in claims : c.n = i THEN LET c == CHOOSE c \in claims : c.n = i IN [o |-> c.o, k |-> c.k]
               ELSE [o |-> -1, k |-> ""]
 \* remote_reduce, _PyObject_GetNewArguments part: __getnewargs_ex__ -> (args, kwargs); no kwargs -> copyreg.__newobj__,
-\* args and kwargs -> copyreg.__newobj_ex__, kwargs only -> RuntimeError('Internal bad call') - before __getstate__ is asked
+\* kwargs (with or without args) -> copyreg.__newobj_ex__; before commit 35e075b (KwOnlyOK = FALSE) kwargs only ->
+\* RuntimeError('Internal bad call'), raised before __getstate__ is asked
 DumpRaises == /\ work # <<>> /\ Head(work).a = "v" /\ Head(work).n \notin memo
               /\ Node(Head(work).n).kind = "opt" /\ Node(Head(work).n).fs = "xo" /\ UsesRR /\ ~KwOnlyOK
 DumpFail ==
@@ -398,8 +400,7 @@ Live_Terminates == <>Terminal
 \* ---- the code as written: the same invariants, weakened by exactly the listed shapes ----
 AsIs_C13_NonOptInEqualsPickle == Terminal => (C13_NonOptInEqualsPickle(Rec) \/ Known_C13(scn))
 AsIs_C13_RemoteFalseIsStd     == Terminal => (C13_RemoteFalseIsStd(Rec) \/ Known_C13(scn))
-AsIs_C14_LoadsSucceeds == (Terminal /\ scn.t = "graph") => (C14_LoadsSucceeds(Rec) \/ Known_C15(scn) \/ K_KwOnly(scn))
-AsIs_C14_Once          == (Terminal /\ scn.t = "graph") => (C14_Once(Rec) \/ K_KwOnly(scn))
+AsIs_C14_LoadsSucceeds == (Terminal /\ scn.t = "graph") => (C14_LoadsSucceeds(Rec) \/ Known_C15(scn))
 AsIs_C15_Delivery      == (Terminal /\ scn.t = "graph") => (C15_Delivery(Rec) \/ Known_C15(scn))
 AsIs_C15_OnlyAddressed == (Terminal /\ scn.t = "graph") => (C15_OnlyAddressed(Rec) \/ Known_C15(scn))
 AsIs_C15_NoResidue     == (Terminal /\ scn.t = "graph") => (C15_NoResidue(Rec) \/ K_DeepPatch(scn))
@@ -415,7 +416,7 @@ R_FailedThenLoad == pc = "load" /\ \E e \in 2..K : CanStart(e) /\ tl[Thr(e)].has
 R_ParPlain     == pc = "load" /\ OptNodes(scn) = {} /\ K >= 2 /\ ex[1].st = "run" /\ ex[2].st = "run"
 R_Residue2     == Terminal /\ scn.t = "graph" /\ \E e \in 1..K : \E m \in ex[e].pm : Len(m.p) >= 2
 R_NewArgsEx    == Terminal /\ scn.t = "graph" /\ res0.outcome = "none" /\ \E i \in 1..NG : scn.g[i].fs \in {"xa", "xk"} /\ ex[1].ssn[i] = 1
-R_KwOnly       == Terminal /\ scn.t = "graph" /\ res0.outcome = "raised:RuntimeError"
+R_KwOnly       == Terminal /\ scn.t = "graph" /\ UsesRR /\ res0.outcome = "none" /\ \E i \in 1..NG : scn.g[i].fs = "xo" /\ ex[1].ssn[i] = 1
 R_LowProto     == Terminal /\ scn.t = "leaf" /\ scn.pclass = "low" /\ scn.lowfails
 R_Siblings     == pc = "load" /\ \E t \in DOMAIN tl : Len(tl[t].stack) >= 3
 R_PatchDelivered == Terminal /\ scn.t = "graph" /\ \E e \in 1..K : ex[e].out = "ok" /\ ex[e].pm # {}
